@@ -383,6 +383,63 @@ fn op_succ(s: &Desc, _depth: usize, tier: Tier) -> Vec<Desc> {
 
 pub static OP: Family = Family { name: "OP", init: op_init, succ: op_succ, depth: |t| if t == Tier::Quick { 4 } else { 4 } };
 
+// ------------------------------------------------------------------ OPN: optional fields nested under a size field
+
+fn opn_init(_t: Tier) -> Vec<Desc> {
+    let enums = || vec![enum_decl("En8", 8, vec![tv("A", 1), tv("B", 2)]), enum_decl("En24", 24, vec![tv("A", 0x010203), tv("B", 0xfffffe)])];
+    let mut a = enums();
+    a.push(packet("Q", vec![scalar("k", 8), size_of("_payload_", 8), payload()]));
+    a.push(child_packet("P", "Q", vec![cint("k", 1)], vec![]));
+    let mut b = enums();
+    b.push(strukt("P", vec![]));
+    b.push(packet("W", vec![size_of("x", 8), array_t("x", "P", Shape::Unsized)]));
+    let mut c = enums();
+    c.push(strukt("P", vec![]));
+    c.push(packet("W", vec![count_of("x", 8), array_t("x", "P", Shape::Unsized), scalar("z", 8)]));
+    vec![le(a), le(b), le(c)]
+}
+
+fn opn_succ(s: &Desc, _depth: usize, _tier: Tier) -> Vec<Desc> {
+    let mut out = vec![];
+    let p = s.get("P").unwrap();
+    let name = fname(s, "P");
+    let k = p.fields().len();
+    let flags: Vec<String> = p
+        .fields()
+        .iter()
+        .filter_map(|f| match &f.kind {
+            FieldKind::Scalar { id, width: 1 } if f.cond.is_none() => Some(id.clone()),
+            _ => None,
+        })
+        .collect();
+    if k == 0 {
+        out.push(push_field(s, "P", scalar(&name, 1)));
+        out.push(push_field(s, "P", scalar(&name, 8)));
+    } else if k == 1 {
+        out.push(push_field(s, "P", reserved(7)));
+        out.push(push_field(s, "P", scalar(&name, 7)));
+    } else {
+        for fl in &flags {
+            for cv in [1u64, 0] {
+                for kd in [
+                    FieldKind::Scalar { id: name.clone(), width: 8 },
+                    FieldKind::Scalar { id: name.clone(), width: 24 },
+                    FieldKind::Scalar { id: name.clone(), width: 40 },
+                    FieldKind::Scalar { id: name.clone(), width: 64 },
+                    FieldKind::Typedef { id: name.clone(), type_id: "En8".into() },
+                    FieldKind::Typedef { id: name.clone(), type_id: "En24".into() },
+                ] {
+                    out.push(push_field(s, "P", Field::opt(kd, fl, cv)));
+                }
+            }
+        }
+        out.push(push_field(s, "P", scalar(&name, 8)));
+    }
+    out
+}
+
+pub static OPN: Family = Family { name: "OPN", init: opn_init, succ: opn_succ, depth: |t| if t == Tier::Quick { 3 } else { 4 } };
+
 // ------------------------------------------------------------------ ST: structs
 
 fn st_init(_t: Tier) -> Vec<Desc> {
@@ -905,7 +962,7 @@ fn dc_succ(s: &Desc, _depth: usize, _tier: Tier) -> Vec<Desc> {
 pub static DC: Family = Family { name: "DC", init: dc_init, succ: dc_succ, depth: |t| if t == Tier::Quick { 2 } else { 3 } };
 
 pub fn all_families() -> Vec<&'static Family> {
-    vec![&BF, &AR, &PL, &OP, &ST, &IN, &INC, &EN, &GR, &MIX, &DC]
+    vec![&BF, &AR, &PL, &OP, &OPN, &ST, &IN, &INC, &EN, &GR, &MIX, &DC]
 }
 
 pub fn family(name: &str) -> Option<&'static Family> {
